@@ -22,6 +22,11 @@ CLAIMED = {
         "Every byte string of up to 6 bytes (8 thorough) offered as a delta to the real pure-Python apply_delta against symbolic bases either raises ApplyDeltaError or returns chunks of exactly the declared length that are slices of base/delta (provenance on the symbolic terms); size varints of up to 11 bytes stay inside the error family; _delta_encode_size and _encode_copy_operation decode (git reference decoder) to their arguments for all n<2^63, start<2^32, 1<=len<=0xFFFF; apply(create(b,t),b)==t for every valid 2-opcode diff script over small symbolic buffers. The Rust decoder/encoder and >64KiB copy splits are outside this check so far.",
         "Trusted: z3, ksym proxies/models, CPython; difflib.SequenceMatcher replaced by an arbitrary opcode list satisfying its documented contract.",
     ),
+    "C14": (
+        "bounded symbolic exploration over real repositories (ksym): history shape, staleness, grafts/shallow boundaries, ref states and operations are solver-forked; the EWAH word encoder runs on symbolic 64-bit words",
+        "Commit-graph: for every history of 4 commits (all parent sets incl. octopus merges), with the file written by dulwich fresh or stale (history continued afterwards) and with a graft or shallow boundary on any commit, ParentsProvider.get_parents, generation numbers, find_merge_base and can_fast_forward give the same answers as with the commit-graph disabled. EWAH: _encode_ewah_words on every list of 1-4 symbolic 64-bit words decodes (independent reference decoder) to the same words; EWAHBitmap encode/decode round-trips every subset of word-boundary bits. Packed refs: every conditional set/create/delete/read gives the same result and refs with and without pack_refs(all) before it, from every loose/packed/loose-over-packed state. Stale multi-pack-index after repack/gc: decided in C10c. One genuine defect was repaired (fedcf94; the stale-midx one under C10). Not covered: pack bitmaps' reachability answers, acceleration files written by C git, pack-index version differences (C02).",
+        "Trusted: z3, ksym, the written-down EWAH word layout.",
+    ),
     "C16": (
         "bounded symbolic execution of the real check_ref_format (ksym) against a reference model of git check-ref-format, one solver query per path",
         "check_ref_format agrees with git check-ref-format on every byte string of length 1..6 (7-8 thorough) and on every name built around '.lock', '@{', '..', '//' with up to 4 free bytes (names up to 9 bytes). The reference model is validated against the installed git binary (tools/validate_git_models.py). Backend contract: one operation of every kind (conditional/unconditional set, create, delete, symbolic ref, pack_refs) with every argument combination, from every state over {HEAD, refs/heads/a, refs/heads/a/b, refs/tags/t} in which refs are absent/loose/packed/loose-over-packed/symbolic, on the real DiskRefsContainer in a real directory (and DictRefsContainer on direct refs), leaves exactly the result, refs, symrefs the map model predicts, also for a re-opened container, and no lock file; the post-state is again a model state, so by induction sequences of any length over this state space are covered. Three genuine defects found by this check were repaired (fix: d4f5845, af3e34d, a38d673). Reftable/namespaced backends and peeled tags are not covered.",
